@@ -24,9 +24,18 @@ from pathlib import Path
 
 VERIF = Path(__file__).resolve().parent.parent
 REPO = Path(os.environ.get("VERIF_REPO", "/repo")).resolve()
-COQ = VERIF / "coq"
 BUILD = VERIF / "build"
 EVID = VERIF / "evidence"
+if str(REPO) == "/repo":
+    COQ = VERIF / "coq"
+    ALT = None
+else:
+    # self-tests against a mutated copy of the repository: mirror the Coq tree so that regenerated
+    # fragments and their dependents never disturb the build that belongs to /repo
+    ALT = hashlib.sha1(str(REPO).encode()).hexdigest()[:10]
+    COQ = BUILD / "alt" / ALT / "coq"
+    BUILD = BUILD / "alt" / ALT
+    EVID = BUILD / "evidence"
 REPLAYS = EVID / "replays"
 CORPUS = VERIF / "corpus"
 PY = "/venv/bin/python"
@@ -221,7 +230,7 @@ def _run(cmd, timeout, cwd=None):
 
 class BuildLock:
     def __enter__(self):
-        BUILD.mkdir(exist_ok=True)
+        BUILD.mkdir(parents=True, exist_ok=True)
         self.f = open(BUILD / ".lock", "w")
         fcntl.flock(self.f, fcntl.LOCK_EX)
         return self
@@ -237,15 +246,25 @@ def regen_sources():
     translate the current source writes a fragment that does not compile (fail closed).
     Returns dict translator -> error string (only failures)."""
     import translators
+    if ALT is not None:
+        COQ.mkdir(parents=True, exist_ok=True)
+        subprocess.run(["rsync", "-a", "--delete", "--exclude", "gen/", "--exclude", "Makefile*",
+                        "--exclude", ".Makefile.d", "--exclude", "_CoqProject", "--exclude", "props/*.vo",
+                        "--exclude", "props/*.glob", "--exclude", "props/*.vos", "--exclude", "props/*.vok",
+                        str(VERIF / "coq") + "/", str(COQ) + "/"], check=True)
     gen = COQ / "gen"
     gen.mkdir(exist_ok=True)
     failures = {}
     wanted = set()
-    for tname in translators.ALL:
-        tmod = importlib.import_module(f"translators.{tname}")
+    for tname in translators.all_names():
+        tmod = None
         try:
+            tmod = importlib.import_module(f"translators.{tname}")
             outputs = tmod.translate(REPO)
         except Exception as e:  # fail closed
+            if tmod is None or not hasattr(tmod, "OUTPUTS"):
+                failures[tname] = f"{type(e).__name__}: {e}"
+                continue
             failures[tname] = f"{type(e).__name__}: {e}"
             msg = failures[tname].replace("*)", "* )").replace("(*", "( *")
             outputs = {fn: f"(* translator {tname} failed: {msg} *)\n"
@@ -323,14 +342,18 @@ def theorem_names(vfile: Path):
     return re.findall(r"^Print Assumptions\s+([\w.']+)\s*\.", txt, re.M)
 
 
+def _src_dirs():
+    return [VERIF / "coq" / d for d in ("theories", "props")] + [COQ / "gen"]
+
+
 def forbidden_scan():
     """grep for constructs the brief forbids; returns list of offending lines."""
     bad = []
     pat = re.compile(r"\b(Admitted|admit|Axiom|Axioms|Parameter|Parameters|Conjecture|Admit Obligations|"
                      r"Unset Guard Checking|Unset Positivity Checking|Unset Universe Checking|bypass_check|"
                      r"native_compute)\b")
-    for d in ("theories", "props", "gen"):
-        for f in sorted((COQ / d).rglob("*.v")):
+    for d in _src_dirs():
+        for f in sorted(d.rglob("*.v")):
             for n, line in enumerate(f.read_text().splitlines(), 1):
                 code = re.sub(r"\(\*.*?\*\)", "", line)
                 if pat.search(code):
@@ -344,8 +367,8 @@ def forbidden_scan():
 def section_scan():
     """Variable/Hypothesis outside a Section declare axioms: reject them."""
     bad = []
-    for d in ("theories", "props", "gen"):
-        for f in sorted((COQ / d).rglob("*.v")):
+    for d in _src_dirs():
+        for f in sorted(d.rglob("*.v")):
             depth = 0
             for n, line in enumerate(f.read_text().splitlines(), 1):
                 code = re.sub(r"\(\*.*?\*\)", "", line).strip()
